@@ -449,6 +449,27 @@ def oracle_generations(rng):
                         'before the first compilation; without that call the model is rejected' % (pr.A.shape, how))
             except RuntimeError:
                 pass
+        # ... and wherever in a nonlinear atom the older Variable sits: only in the FIRST argument of relent, only in the first / a middle component of a norm
+        for where in ('relent_first', 'relent_second', 'norm_first', 'norm_middle'):
+            cl.clear_variable_indices()
+            y_old = cl.Variable(shape=(2,), name='gy_' + where)
+            cl.clear_variable_indices()
+            x_new = cl.Variable(shape=(2,), name='gx_' + where)
+            t_new = cl.Variable(shape=(1,), name='gt_' + where)
+            if where == 'relent_first':
+                cons_w = [cl.relent(y_old, x_new) <= t_new, x_new <= np.array([1.0, 2.0]), x_new >= 0.5]
+            elif where == 'relent_second':
+                cons_w = [cl.relent(x_new, y_old) <= t_new, x_new <= np.array([1.0, 2.0]), x_new >= 0.5]
+            elif where == 'norm_first':
+                cons_w = [cl.vector2norm(cl.hstack((y_old[0], x_new[0], x_new[1]))) <= t_new, x_new >= 1]
+            else:
+                cons_w = [cl.vector2norm(cl.hstack((x_new[0], y_old[1], x_new[1]))) <= t_new, x_new >= 1]
+            try:
+                pr = cl.Problem(cl.MIN, t_new[0], cons_w)
+                return ('a Problem in which a Variable of an earlier generation occurs only in one argument of a nonlinear atom (%s) was built (A is %s) instead of '
+                        'rejected' % (where, pr.A.shape))
+            except RuntimeError:
+                pass
         b = cl.Variable(shape=(2,), name='gb_current')
         # same generation after the clear: fine
         c2 = cl.Variable(shape=(2,), name='gc')
